@@ -53,6 +53,7 @@ REQUIRED = ["cp:capacity:con4", "cp:capacity:con8", "sparse:capacity", "sparse:b
 REQUIRED += ["cp:%s:con%d$" % (kind, c) for kind in ("bernoulli", "zeros", "full", "checker", "border") for c in (4, 8)]
 # label-set growth at each place a label is made
 REQUIRED += ["cp:growth:%s" % site for site in ("col0", "lastcol", "middle", "firstrow")]
+REQUIRED += ["mask_to_coo:nnz\\+:negative"]
 
 
 def kernel_sources():
